@@ -205,6 +205,26 @@ def run_case(case):
                             " ".join(cli_argv("", opts, opts["cli"])[1:]), got_cli[:3], got[:3], _o(opts)))
                 except (Exception, SystemExit) as e:
                     fail("cli-exception:%s" % type(e).__name__, "drf %s: %s" % (" ".join(cli_argv("", opts, opts["cli"])[1:]), e))
+                if not opts.get("vanish"):
+                    # the directory named twice on one command line, paths printed relative to it (no --abs): each argument is
+                    # listed in full, one after the other
+                    try:
+                        import contextlib
+                        import io
+                        from digital_rf import drf_command
+                        root_abs = os.path.join(base, opts["root"])
+                        av = [a_ for a_ in cli_argv(base, opts, opts["cli"]) if a_ != "--abs"]
+                        av.insert(av.index(root_abs) + 1, root_abs)
+                        buf = io.StringIO()
+                        with contextlib.redirect_stdout(buf):
+                            drf_command.main(av)
+                        printed = [ln_ for ln_ in buf.getvalue().splitlines() if ln_]
+                        rel_ = [os.path.relpath(os.path.join(base, p_), root_abs) for p_ in got]
+                        if printed != rel_ + rel_:
+                            fail("cli-two-arguments", "drf ls DIR DIR printed %d lines %s..., expected the listing twice (%d lines)" % (
+                                len(printed), printed[:3], 2 * len(rel_)))
+                    except (Exception, SystemExit) as e:
+                        fail("cli-exception:%s" % type(e).__name__, "drf ls DIR DIR: %s" % e)
             # reversing changes only the order, never the set (no vanish: both runs see the same tree)
             if not opts.get("vanish"):
                 o2 = dict(opts, reverse=not opts["reverse"])
